@@ -5,6 +5,7 @@ import (
 	"context"
 	"fmt"
 	"os"
+	"strings"
 	"testing"
 	"testing/synctest"
 	"time"
@@ -63,8 +64,13 @@ func TestC01(t *testing.T) {
 // any process while either one of the two regions is unreachable (that is what the multi-region envelope is for).
 func regionalKMS(t *testing.T, r *ev.Run) {
 	for _, version := range []int{1, 2} {
-		for _, cfgName := range []string{"default", "nocache"} {
-			name := fmt.Sprintf("regional-kms/v%d/%s", version, cfgName)
+		for _, cfgName := range []string{"default", "nocache", "nocache/dynamodb-v1", "nocache/dynamodb-v2", "default/sql"} {
+			backend := "memory"
+			if i := strings.IndexByte(cfgName, '/'); i > 0 {
+				// the plug-in's variable-length envelope stored through a real metastore plug-in
+				cfgName, backend = cfgName[:i], cfgName[i+1:]
+			}
+			name := fmt.Sprintf("regional-kms/v%d/%s/%s", version, cfgName, backend)
 			journal("C01 " + name)
 			func() {
 				defer func() {
@@ -73,7 +79,7 @@ func regionalKMS(t *testing.T, r *ev.Run) {
 					}
 				}()
 				synctest.Test(t, func(t *testing.T) {
-					w := world.New("memguard")
+					w := world.NewOn("memguard", backend)
 					w.UseAWSKMS(version)
 					defer w.Close()
 					time.Sleep(41 * time.Second)
